@@ -229,6 +229,21 @@ def run_case(ns, ctx, case):
                     evals += 1
                     if n >= 2:
                         keys.append(("split", n, tf, vf, shuffle, seed))
+                    if not shuffle and (float(tf) in (0.0, 1.0, 0.5) or (vf is not None and float(vf) in (0.0, 1.0, 0.5))):
+                        # the same fractions spelled with other number types (the end points 0 and 1 as Python / NumPy integers, NumPy floats):
+                        # a fraction is a fraction whatever its type
+                        def spell(f_, how):
+                            if f_ is None:
+                                return None
+                            if float(f_) in (0.0, 1.0):
+                                return [int(f_), ns.np.int64(int(f_)), ns.np.float32(f_), ns.np.int32(int(f_))][how % 4]
+                            return [ns.np.float64(f_), ns.np.float32(f_)][how % 2] if float(f_) == 0.5 else f_
+                        for how in range(4):
+                            tf2, vf2 = spell(tf, how), spell(vf, how + 1)
+                            viol += [dict(v_, sig=v_["sig"] + ":fraction-given-as-" + type(tf2).__name__ + ("/" + type(vf2).__name__ if vf2 is not None else ""))
+                                     for v_ in check_split(ns, n, tf2, vf2, shuffle, seed)]
+                            evals += 1
+                            counters["split_calls_other_number_types"] = counters.get("split_calls_other_number_types", 0) + 1
         counters["split_calls"] = evals
     elif case["kind"] == "loader":
         n = case["n"]
@@ -257,6 +272,12 @@ def run_case(ns, ctx, case):
                 evals += 1
             if len(set(labels)) >= 2:
                 keys.append(("onehot", tuple(labels)))
+        # degenerate label sets, enumerated: one distinct label (one column), a single sample, many classes (two-digit counts), repeated single class
+        for labels in ([5], [5, 5, 5], [0], [0, 0], ["x"], ["x", "x"], [2.5, 2.5], list(range(12)), list(range(11, -1, -1)), [7, 3, 7, 3, 7], [100, 20, 3], [-10, -9, -2, -1]):
+            viol += check_onehot(ns, labels)
+            viol += check_onehot(ns, labels, "ndarray")
+            evals += 2
+            counters["onehot_degenerate_label_sets"] = counters.get("onehot_degenerate_label_sets", 0) + 1
         counters["onehot_calls"] = evals
     # de-duplicate violations per signature within a case (keep first witness)
     seen, vv = set(), []
